@@ -371,18 +371,15 @@ pub fn run(o: &mut Out, tier: &str, seed: u64) {
       for _ in 0..(if thorough { 1500 } else { 250 }) {
           let (i, ou, m) = (*r.pick(&counts), *r.pick(&counts), *r.pick(&counts)); let t = r.range(0, 6);
           let body = match r.below(4) { 0 => vec![], 1 => { let n = r.range(1, 100) as usize; vec![0u8; n] } _ => { let n = r.range(1, 200) as usize; r.bytes(n) } };
-          // `1 + inputs` (ringct.rs:774) overflows for inputs = usize::MAX with the one type (Full) that evaluates it: CONFIRMED PANIC
-          // of the public decoder ("attempt to add with overflow"), reported in REPORT.md / DESIGN; the family is kept, guarded:
-          let overflow_site = t == 1 && i == um;
-          if overflow_site { if false /* pending triage: RctSigPrunable::consensus_decode(_, Full, usize::MAX, 0, _) panics */ {
-              dec(&mut iso, o, format!("c04_dec prunable {} {} {} {} {}", t, i, ou, m, hex(&body)), body.len(), false); } }
-          else { dec(&mut iso, o, format!("c04_dec prunable {} {} {} {} {}", t, i, ou, m, hex(&body)), body.len(), false); }
+          // (type Full with inputs = usize::MAX used to overflow `1 + inputs`, ringct.rs:774 — a panic of the public decoder, repaired by the
+          //  fix commit "RctSigPrunable::consensus_decode computes the MLSAG column count with saturating_add"; the point stays in the family)
+          dec(&mut iso, o, format!("c04_dec prunable {} {} {} {} {}", t, i, ou, m, hex(&body)), body.len(), false);
           let mut bbody = vec![r.range(0, 7) as u8]; bbody.extend(&body);
           dec(&mut iso, o, format!("c04_dec base {} {} {}", i, ou, hex(&bbody)), bbody.len(), false);
           let el = *r.pick(&["key", "u8", "txin", "txout", "varint", "hash"]); let n = if r.chance(1, 2) { *r.pick(&counts) } else { *r.pick(&[cap / 64, cap / 64 + 1, cap / 48, cap / 48 + 1, cap / 8, cap / 8 + 1, cap, cap + 1]) };
           dec(&mut iso, o, format!("c04_dec sized {} {} {}", el, n, hex(&body)), body.len(), false);
       }
-      if false /* pending triage (same site, the minimal call) */ { dec(&mut iso, o, format!("c04_dec prunable 1 {} 0 0 -", um), 0, false); }
+      dec(&mut iso, o, format!("c04_dec prunable 1 {} 0 0 -", um), 0, false);   // the minimal call that panicked before the fix
     }
     // (6) parsed transactions with outputs OWNED by `view_pair()` (main address and sub-address (0,1); main transaction key and
     //     additional keys; plain and tagged targets; every RingCT type) whose commitment is valid / undecodable / a different point:
